@@ -282,6 +282,31 @@ pub fn mutated_frame_strategy() -> impl Strategy<Value = MutCase> {
     })
 }
 
+/// an IS_VER frame around an arbitrary version text (cut to 8 bytes on a character boundary)
+pub fn ver_frame_strategy() -> impl Strategy<Value = MutCase> {
+    let text = prop_oneof![
+        3 => "[0-9]{1,8}",
+        3 => "[0-9]{1,3}\\.[0-9]{1,4}[A-Za-z]?[0-9]{0,3}",
+        2 => "[0-9.]{0,6}[A-Za-z][0-9²³¹٣½①]{0,3}",
+        2 => "[0-9.A-Za-z²٣½ ]{0,8}",
+    ];
+    (any::<bool>(), text, any::<u8>(), "[A-Z0-9]{0,6}").prop_map(|(compressed, t, insimver, product)| {
+        let mut v = t.into_bytes();
+        while v.len() > 8 || std::str::from_utf8(&v).is_err() {
+            v.pop();
+        }
+        v.resize(8, 0);
+        let mut f = vec![if compressed { 5u8 } else { 20 }, 2, 1, 0];
+        f.extend_from_slice(&v);
+        let mut p = product.into_bytes();
+        p.resize(6, 0);
+        f.extend_from_slice(&p);
+        f.push(insimver);
+        f.push(0);
+        MutCase { compressed, frame: f }
+    })
+}
+
 pub fn parts() -> Vec<Box<dyn DynPart>> {
     vec![Box::new(Counts), Box::new(TextLengths), Box::new(FromImages), Box::new(AcceptedFrames)]
 }
@@ -347,4 +372,7 @@ pub fn run(run: &mut Run) {
     // (4)
     let n = run.budget(200_000, 10_000_000);
     run.prop(&AcceptedFrames, mutated_frame_strategy(), n);
+    // (4b) IS_VER frames whose 8-byte version text is free-form (digits only, long numbers, odd letters, Unicode digits)
+    let n = run.budget(60_000, 3_000_000);
+    run.prop(&AcceptedFrames, ver_frame_strategy(), n);
 }
